@@ -1,4 +1,5 @@
 import HcProofs.Lemmas.Notify
+import HcModel.NotifyWire
 /-
   C10 — each change is notified exactly once to exactly the subscribed others.
   Model: HcModel/Notify.lean (fan-out loop of ip_transport.go over the context's sessions, updateValue of
@@ -204,5 +205,18 @@ def demoHist : List In :=
 example : (step (reach demoChars demoHist) (.remoteWrite 1 7 5)).2 = [⟨2, 7, some 5⟩] := by decide
 example : (step (reach demoChars demoHist) (.localSet 7 5)).2 = [⟨2, 7, some 5⟩, ⟨1, 7, some 5⟩] := by decide
 example : (step (reach demoChars demoHist) (.localSet 7 0)).2 = [] := by decide
+
+open Hc.NotifyWire in
+/-- On the wire: the serialised notification starts with net/http's status line "HTTP/1.0 …"; the protocol fix turns
+    exactly that into "EVENT/1.0 …" and carries everything behind it — header fields and the JSON body with the new
+    value, whatever text the value contains (also "HTTP/1.0") — unchanged. -/
+theorem event_wire_only_status_line_changes (rest : Bytes) :
+    fixProto (http10 ++ rest) = event10 ++ rest := by
+  simp [fixProto, http10, event10, replaceFirst]
+
+open Hc.NotifyWire in
+/-- … and the body is never touched on its own: bytes without "HTTP/1.0" in front of them stay as they are up to the
+    first occurrence (non-vacuity of "only the first": a value that itself contains the specifier) -/
+example : fixProto (http10 ++ [32] ++ http10) = event10 ++ [32] ++ http10 := by decide
 
 end Hc.Props.C10
